@@ -98,6 +98,11 @@ CHECKS = {
             "For every skeleton, input vector and option set the PRINT trace, the way the program stops and the final store must agree; Color BASIC terminating while the translation exceeds 20x its step count is non-termination; an unparsable translation of a runnable source is a violation.",
             "Trusted: the two interpreters' control-flow semantics (bottom-tested FOR with FOR-stack search, rest-of-line IF branches, nearest-IF ELSE; BASIC09 top-tested FOR, LOOP/EXITIF). Programs that raise an error in Color BASIC are outside the fragment.",
             "DESIGN.md §2 C02"),
+    "C04": ("model_checking",
+            "exhaustive enumeration of device statement forms x optional-operand presence x operand shapes (+ ordered pairs on one line); Color BASIC model evaluates the source operands, BASIC09 model executes the translation up to the RUN events; arguments compared by parameter NAME through a role table, positions read from the live library",
+            "For every form/shape the runtime procedure, each source operand's value in the parameter the library declares for it, the documented default for every omitted operand, native POKE / speed-poke handling, device-function inputs and the HBUFF prologue are checked.",
+            "Trusted: role table vf/checks/c04.py ROLES (Extended/Super Extended BASIC manuals, DESIGN Appendix B); _ecb_start modelled as storing marker values in the display record.",
+            "DESIGN.md §2 C04, Appendix B"),
 }
 
 PENDING_REASON = "check not built yet in this revision (work in progress; will be claimed when its explorer exists)"
